@@ -111,3 +111,72 @@ def for_shape(loop):
 def covers_range(sh, lo, hi_render):
     """ascending [lo, hi): start == lo, cmp '<', bound == hi"""
     return sh.ok and sh.step > 0 and sh.start_node.const_value() == lo and sh.cmp == "<" and sh.bound == hi_render
+
+
+def index_shape(loop):
+    """for_shape, extended to `i = start; while (... && i < B && ...) { ...; i++; }` (and for loops whose condition
+    carries further conjuncts).  Further conjuncts are kept in .extra (they can only end the loop earlier)."""
+    sh = for_shape(loop) if loop.k == "ForStmt" else LoopShape(loop)
+    if sh.ok:
+        sh.extra = []
+        return sh
+    from .dataflow import ReachingDefs
+    fn = loop.fn
+    cond = loop.child("cond")
+    if cond is None or loop.k not in ("WhileStmt", "ForStmt"):
+        return sh
+
+    def conj(e):
+        e2 = e.strip()
+        if e2.k == "BinaryOperator" and e2.j.get("op") == "&&":
+            return conj(e2.children[0]) + conj(e2.children[1])
+        return [e2]
+    parts = conj(cond)
+    movers = {}
+    scope = [loop.child("body")] + ([loop.child("inc")] if loop.k == "ForStmt" else [])
+    for part in scope:
+        for n in (part.walk() if part is not None else []):
+            v, st = _step_of(n)
+            if v is not None:
+                movers.setdefault(v, []).append((n, st))
+            if n.k == "BinaryOperator" and n.j.get("op") == "=" and n.children[0].strip().k == "DeclRefExpr":
+                movers.setdefault(render(n.children[0]), []).append((n, 0))
+    for c in parts:
+        if c.k != "BinaryOperator" or c.j.get("op") not in ("<", "<=", ">", ">="):
+            continue
+        l, r, op = render(c.children[0]), render(c.children[1]), c.j["op"]
+        for var, bound, cmp_ in ((l, r, op), (r, l, {"<": ">", ">": "<", "<=": ">=", ">=": "<="}[op])):
+            ms = movers.get(var, [])
+            if len(ms) != 1 or ms[0][1] == 0:
+                continue
+            step = ms[0][1]
+            if not ((step > 0 and cmp_ in ("<", "<=")) or (step < 0 and cmp_ in (">", ">="))):
+                continue
+            cfg = fn.cfg
+            hb = cfg.loop_header(loop)
+            nl = cfg.natural_loop(hb)
+            mb = cfg.block_of(ms[0][0])
+            # every round passes the step
+            seen, work, every = set(), [s2 for (b, i2, s2) in cfg.edges() if b == hb and s2 in nl], True
+            while work:
+                b = work.pop()
+                if b == hb:
+                    every = False
+                    break
+                if b in seen or b == mb:
+                    continue
+                seen.add(b)
+                work.extend(s2 for (bb, i2, s2) in cfg.edges() if bb == b and s2 in nl)
+            if not every and hb != mb:
+                continue
+            rd = ReachingDefs(fn)
+            ds = [d for d in rd.reaching(var, cond) if d.node is None or not d.node.within(loop)]
+            if len(ds) != 1 or ds[0].rhs is None:
+                continue
+            sh.var, sh.step, sh.cmp, sh.bound = var, step, cmp_, bound
+            sh.start_node, sh.start = ds[0].rhs, render(ds[0].rhs)
+            sh.extra = [x for x in parts if x is not c]
+            sh.ok = True
+            sh.why = ""
+            return sh
+    return sh
